@@ -35,7 +35,7 @@ CHECKS = {
  "C10": ("exploration", "differential oracle over CreatePodFromDaemonSetReplicaSet + compareCurrentPodWithNewPod round trip and single perturbations; input replica set compared with a deep copy after every call; monitors on real syncs of simulated histories with node override annotations and ExtendedDaemonsetSettings that change while pods exist: resources precedence of every created pod against what the sync read, no update deletion of an own pod whose creation inputs read the same, no outdated pod left at the fixpoint, labels/namespace",
    "20k (quick) / 200k (thorough) seeded (template, node, setting, mode) tuples: pinning in every affinity term, owner, labels, hash, default tolerations, resources precedence, wire round trip judged up to date, every single perturbation judged outdated. Simulator engines (schedules S and N): overrides and settings created, edited and removed by the user, the setting controller interleaved, several pods per sync; rules resources-precedence, spurious-replace, outdated-recognised (fixpoint).",
    T+"a malformed annotation is expected to fall through to setting/template; its being reported is not part of the statement.", "4/C10"),
- "C11": ("fault_enumeration", "fault injection at the client seam: every API call index x {reject, lost reply, stop before, stop after}; safety monitors at every step, final abstract state compared with the failure-free run",
+ "C11": ("fault_enumeration", "fault injection at the client seam: every API call index x {reject, lost reply, stop before, stop after}; safety monitors at every step (per-invocation rules against what the reconcile read, a store-level one-live-pod-per-node invariant compared with the failure-free run, and no create/delete after a refused read), final abstract state compared with the failure-free run",
    "Ten corpus scenarios; the failure-free run is recorded, then re-run once per (call index, fault kind); stop faults void the rest of the invocation and rebuild all reconcilers with empty in-memory state; thorough adds 20k seeded fault pairs.",
    T+"process stop is emulated by voiding later calls of the invocation rather than killing goroutines.", "4/C11"),
  "C12": ("exploration", "runtime monitors: every write of every invocation must target an object of the EDS being reconciled; foreign objects never counted/adopted",
